@@ -306,7 +306,7 @@ func init() {
 	register(&Check{
 		ID:     "C18",
 		Level:  "fault_enumeration",
-		Rule:   "a small node is built deterministically (two indexes x two rotated log segments x 2-3 blocks, dictionary and plain columns, block summaries, micro-indexes, segment stats, rollups; one rotated metrics segment with tags tree) and shut down; then for a file of a segment one damage is applied (truncate to length n, or set byte i to a flipped bit / 0x00 / 0xFF), a fresh process boots on the tree and a fixed suite of 13 queries runs (incl. a time range cutting through every block and a timechart); in every fourth case the damage is applied to the live node instead - the suite runs on the intact files, the file changes under the running process (`damage_file`), the suite runs again. Oracle per query: every returned row equals the undamaged row (nothing invented, nothing altered); rows may be missing only from queries that touch the damaged file and only with a reported error; no crash, no hang, start-up succeeds. thorough: every length and every byte x 3 of every segment file until the time budget (exhaustive flag only if all were run); quick: all bytes of the first 24 bytes of each file + a stratified sample. distinct = (file, damage); non-trivial = the damaged file is read by at least one suite query",
+		Rule:   "a small node is built deterministically (two indexes x two rotated log segments x 2-3 blocks, dictionary and plain columns, block summaries, micro-indexes, segment stats, rollups; one rotated metrics segment with tags tree) and shut down; then for a file of a segment one damage is applied (truncate to length n, or set byte i to a flipped bit / 0x00 / 0xFF), a fresh process boots on the tree and a fixed suite of 13 queries runs (incl. a time range cutting through every block and a timechart); every fourth damage is applied a second time to the live node - the suite runs on the intact files, the file changes under the running process (`damage_file`), the suite runs again. Oracle per query: every returned row equals the undamaged row (nothing invented, nothing altered); rows may be missing only from queries that touch the damaged file and only with a reported error; no crash, no hang, start-up succeeds. thorough: every length and every byte x 3 of every segment file until the time budget (exhaustive flag only if all were run); quick: all bytes of the first 24 bytes of each file + a stratified sample. distinct = (file, damage); non-trivial = the damaged file is read by at least one suite query",
 		Run:    runC18,
 		Oracle: func(res *RunResult) []Violation { return damageOracle("C18", res) },
 		Assumptions: []string{
@@ -432,11 +432,16 @@ func runC18(c *Ctx) {
 		c.SetExtra(fmt.Sprintf("node%d_files", nd), len(names))
 		c.SetExtra(fmt.Sprintf("node%d_damage_space", nd), total)
 		nsamp := 0
-		c.Parallel(len(dmgs), 0, func(j int) {
+		// every damage is applied before start-up; every fourth one is applied a second time, under the running node
+		nLive := len(dmgs) / 4
+		c.Parallel(len(dmgs)+nLive, 0, func(j int) {
+			live := j >= len(dmgs)
+			if live {
+				j = (j-len(dmgs))*4 + 3
+			}
 			d := dmgs[j]
 			p := base.Clone()
 			cleanFor := clean
-			live := j%4 == 3
 			if live {
 				// bit rot under a running server: the suite runs on the intact files first (whatever the node
 				// verified or cached then), the medium changes, the suite runs again. Both passes are judged against
@@ -479,7 +484,7 @@ func runC18(c *Ctx) {
 				c.faultCounts["file_damage:"+d.Op]++
 			}
 			c.mu.Unlock()
-			c.Account(res, fmt.Sprintf("n%d-%s-%s-%d-%d", nd, d.File, d.Op, d.At, d.Val), true, sample)
+			c.Account(res, fmt.Sprintf("n%d-%s-%s-%d-%d-live%v", nd, d.File, d.Op, d.At, d.Val, live), true, sample)
 			c.Probe("damage@"+fileKindDamage(d.File), 1)
 			c.Report(p, vs)
 		})
